@@ -3,11 +3,14 @@ package main
 
 import (
 	"context"
+	"errors"
+	"fmt"
 	"log"
 	"os"
 	"os/signal"
 	"syscall"
 
+	"github.com/gokrazy/rsync/internal/rsyncopts"
 	"github.com/gokrazy/rsync/rsynccmd"
 )
 
@@ -20,6 +23,12 @@ func main() {
 	cmd.Stdout = os.Stdout
 	cmd.Stderr = os.Stderr
 	if _, err := cmd.Run(ctx); err != nil {
+		var exit *rsyncopts.ExitError
+		if errors.As(err, &exit) {
+			// e.g. --help or --version
+			fmt.Println(exit.Output)
+			os.Exit(exit.Code)
+		}
 		log.Fatal(err)
 	}
 }
